@@ -56,6 +56,8 @@ CLAIMED["C17"] = ("Deductive proof of order independence for every loop over a G
   "Partial: encodeCharstrings' loop (inner loops in the body) is not claimed - only its own-key frame is proved; text/template's sorted map output, sort.Slice/slices.Sort and wall-clock/address independence are trusted or outside contracts; cross-process equality follows from the same obligations since no hash seed is modelled (arbitrary order). Trusted: govc, go/ssa, solvers.", T, "DESIGN.md §3 C17")
 CLAIMED["C04"] = ("Deductive proof of lexical step contracts over a view of the bytes in memory (peeked bytes followed by the unread buffer): Next/Peek/SkipByte consume or keep exactly the front of the view in clear-text mode; ReadString obeys PLRM 3.2.2 byte by byte for all byte values (nesting parentheses, the eight named escapes, backslash-newline, one to three octal digits with overflow dropped, unknown escapes taken literally, CR and CR LF read as LF); ReadHexString skips white space, pairs digits of either case high nibble first and rejects other bytes; isRegular is exactly the complement of white space/control bytes and the ten delimiters.",
   "Partial: the clauses hold while at least four bytes are in memory (what happens at a refill boundary is the C12 refill contract, not composed); ScanToken dispatch, numbers (strconv/regexp), names, ASCII85, comments/DSC and the String.PS/Name.PS round trips are not under contract (see evidence.not_covered). Trusted: govc, go/ssa, solvers.", T, "DESIGN.md §3 C04")
+CLAIMED["C16"] = ("Deductive proof of the algorithmic clauses of the glyph-name code: IsValid is exactly the AGLFN name syntax (.notdef, or 1..31 characters from A-Za-z0-9._ not starting with a digit or period) for every string, including non-ASCII input; in ToUnicode the uni form accepts exactly groups of four upper-case hexadecimal digits whose value lies outside D800..DFFF and yields exactly those code points in order, rejecting on the first other byte or surrogate group; the u form computes the value of its four to six upper-case hexadecimal digits.",
+  "Partial: the contents of the glyph list / AGLFN / Zapf Dingbats tables are data, not code (an enumeration, not a deduction); the decision order dingbats-glyphlist-uni-u, the suffix and underscore splitting (strings package), the final range test of the u form, FromUnicode and the round trip are not under contract (see evidence.not_covered). Range over a string is modelled by its ASCII behaviour (other positions yield some rune >= 128). Trusted: govc, go/ssa, solvers.", T, "DESIGN.md §3 C16")
 NA = {
  "C09": "whole-pipeline equality (write through text/template and fmt, read back through the tokenizer, ~60 operators and the charstring decoder) cannot be stated as a contract over one call: no contract within reach carries a Font value through text/template output and back through the interpreter. The component contracts it rests on are proved under C05, C06, C08, C10, C20 (DESIGN.md §4).",
  "C15": "AFM write/read cycle equality runs through fmt.Fprintf, bufio.Scanner, strings.Fields and strconv in both directions; these stdlib functions are opaque to the verifier (no string theory), so no contract can express that the text written is the text parsed (DESIGN.md §4). The no-panic and error-propagation parts of the AFM reader/writer are proved under C01, C10, C13.",
